@@ -771,10 +771,11 @@ type voteCase struct {
 	cand     uint64
 	clog     int // candidate log relative to the voter's: 0 older term longer, 1 same term shorter, 2 equal, 3 same term longer, 4 newer term shorter
 	xfer     bool
+	bump     bool // before the request, a leader of the request's term (6) makes itself known and goes away again: the term is adopted outside the vote path
 }
 
 func (c voteCase) String() string {
-	return fmt.Sprintf("log=%d voted=%d leader=%d | req term=%d cand=%d clog=%d xfer=%v", c.logShape, c.voted, c.leader, c.rterm, c.cand, c.clog, c.xfer)
+	return fmt.Sprintf("log=%d voted=%d leader=%d bump=%v | req term=%d cand=%d clog=%d xfer=%v", c.logShape, c.voted, c.leader, c.bump, c.rterm, c.cand, c.clog, c.xfer)
 }
 
 var gridPath = []uEntry{{1, 1, ev.TypConfig, nil}, {2, 2, ev.TypNop, nil}, {3, 2, ev.TypUpdate, []byte("g3")}, {4, 4, ev.TypNop, nil}, {5, 4, ev.TypUpdate, []byte("g5")}}
@@ -793,7 +794,10 @@ func (e *engineB) runVoteGrid() error {
 					for _, cand := range []uint64{3, 4} {
 						for cl := 0; cl < 5; cl++ {
 							for _, x := range []bool{false, true} {
-								cases = append(cases, voteCase{ls, v, l, rt, cand, cl, x})
+								cases = append(cases, voteCase{ls, v, l, rt, cand, cl, x, false})
+								if rt == 6 {
+									cases = append(cases, voteCase{ls, v, l, rt, cand, cl, x, true})
+								}
 							}
 						}
 					}
@@ -892,6 +896,23 @@ func (e *engineB) voteCase(i int, c voteCase) error {
 			}
 			e.waitLeader(0)
 		}
+	}
+	if c.bump {
+		// a leader of term 6 (peer 2 again) is heard from once, then its
+		// connection ends: term 6 is adopted from a leader's request, what
+		// the node remembers of its vote in term 5 must not carry over
+		bep := &epoch{n: 2, term: 6, leader: 2, vid: 102, log: append([]uEntry(nil), path[:k]...), firstOwn: uint64(k) + 1}
+		e.rc.emit(&ev.Rec{K: "wire-id", ID: bep.vid, Src: 2})
+		e.vEmit(bep, &ev.Rec{K: "open", St: e.vState(bep, "F"), Cfg: &ev.Cfg{Index: 1, Term: 1}, Log: open.Log[:k]})
+		e.vEmit(bep, &ev.Rec{K: "state", St: e.vState(bep, "L")})
+		if _, err := e.call(2, raft.VerifMsg{Kind: "append", Term: 6, Src: 2, A: li, B: lt}, nil, true); err != nil {
+			return err
+		}
+		if p := e.conns[2]; p != nil {
+			p.close()
+			delete(e.conns, 2)
+		}
+		e.waitLeader(0)
 	}
 	// the request under test
 	var a, b uint64
